@@ -1,3 +1,4 @@
+import RSocketModel.Engine.Reassembly
 import RSocketModel.Proofs.FragmentGen
 import RSocketModel.Proofs.Cache
 /-!
@@ -370,3 +371,43 @@ theorem c03_size_counterexample :
 example : Gen.tyRequestChannel ∈ Gen.fragmentableTypes ∧ Gen.minimumFragmentSize ≤ 64 := by decide
 
 end RSocketModel.Fragment
+
+/-! ### reassembly inside the engine -/
+namespace RSocketModel.Engine
+
+/-- **a frame that arrives in fragments has exactly the effect of the whole frame** — for every
+engine state, every fragmentable frame type (PAYLOAD and the four requests), every split of the
+payload into a first fragment, any number of continuation fragments and a last one (COMPLETE
+travelling on the last fragment only), every handler behaviour: the fragments produce no output
+until the last one arrives, and then the state and the outputs are those of the unfragmented frame.
+In particular a fragmented REQUEST_CHANNEL keeps its COMPLETE flag (defect F15, fixed). -/
+theorem c03_engine_reassembles (st : State) (hc : st.closed = false) (f : Frame) (b : Behaviour)
+    (hfr : isFragmentable f.ty = true) (hff : f.follows = false) (hpn : f.ty = .payload → f.next = true)
+    (hnone : st.cache.find? (·.1 == f.sid) = none) (d1 : List Nat) (mids : List (List Nat)) (dl : List Nat)
+    (hd : f.data = d1 ++ mids.flatten ++ dl) :
+    run st ((fragsOf f d1 mids dl).map (fun g => Ev.recv g b)) =
+      ((step st (.recv f b)).1, [] :: (mids.map (fun _ => []) ++ [(step st (.recv f b)).2])) := by
+  have hfirst := recv_first st hc { f with follows := true, complete := false, data := d1 } b hfr rfl hnone
+  have hrest := run_fragments st hc f.sid b
+    { ty := .payload, sid := f.sid, follows := false, complete := f.complete, next := f.next, data := dl } rfl rfl rfl hnone mids
+    { f with follows := true, complete := false, data := d1 } rfl hpn
+  have hframe : ({ ({ f with follows := true, complete := false, data := d1 } : Frame) with
+        complete := f.complete, next := if f.ty == .payload then f.next else f.next, data := d1 ++ mids.flatten ++ dl } : Frame) =
+      { f with follows := true } := by
+    cases f; simp_all
+  simp only at hrest
+  rw [hframe, dispatch_follows st f b hfr true, ← recv_whole st hc f b hff hnone] at hrest
+  simp only [fragsOf, List.map_cons, List.map_append, List.map_map, List.map_nil, List.cons_append, run]
+  rw [hfirst]
+  simp only
+  have hmap : List.map ((fun g => Ev.recv g b) ∘ fun d => ({ ty := .payload, sid := f.sid, follows := true, next := true, data := d } : Frame)) mids =
+      mids.map (fun d => Ev.recv (midFrag f.sid d) b) := rfl
+  rw [hmap, hrest]
+
+/-- non-vacuity: a REQUEST_CHANNEL with COMPLETE arriving in three fragments on a fresh server -/
+example : (run (init 2) ((fragsOf { ty := .requestChannel, sid := 1, n := 3, complete := true, data := [1, 2, 3] } [1] [[2]] [3]).map
+    (fun g => Ev.recv g (.channel true true)))).2 =
+    [[], [], [.handlerCall .requestChannel [1, 2, 3], .created 0 1, .onSubscribe 0, .pubSubscribe 0, .pubRequest 0 3, .onComplete 0]] := by
+  decide +kernel
+
+end RSocketModel.Engine
